@@ -1497,6 +1497,11 @@ func ruleHeaderRecord(r *Report) {
 			}
 			hi = k
 		}
+		// the bytes moved are the primitive's own width (Uint32/PutUint32: four) from the start of the
+		// slice; an upper bound beyond that, or none, changes nothing
+		if hi == -1 || hi >= lo+4 {
+			hi = lo + 4
+		}
 		return rng{lo, hi}, true
 	}
 	headerField := func(v ssa.Value) string {
